@@ -17,6 +17,8 @@ fn main() {
         Some("pattern") => pattern::one(&args[1..]),
         Some("route") => service::route(&args[1..]),
         Some("meta") => service::meta(&args[1..]),
+        Some("raw") => service::raw(&args[1..]),
+        Some("bind") => service::bind(&args[1..]),
         Some("amz-date") => service::amz_date(&args[1..]),
         Some("secret") => secret::run(),
         Some("sigv4") => sigv4::one(&args[1..]),
